@@ -579,6 +579,10 @@ static inline double complex vs_get_v(vnacal_new_solve_state_t *vnssp)
     return vnmmp->vnsm_v_matrices[vnssp->vnss_sindex][v_cell];
 }
 
+/* _vnacal_new_check_parameter: test if _vnacal_new_get_parameter would accept */
+extern int _vnacal_new_check_parameter(const char *function,
+	vnacal_new_t *vnp, int parameter);
+
 /* _vnacal_new_get_parameter: add/find parameter and return held */
 extern vnacal_new_parameter_t *_vnacal_new_get_parameter(
 	const char *function, vnacal_new_t *vnp, int parameter);
